@@ -937,6 +937,21 @@ def family_frontend():
                              '\t\tvrt.Reset()\n\t\tres, c, e := InjectDirect()\n\t\tvrt.Check(spec, vrt.Outcome{Result: []int{res.ID}, Err: e, Cleanup: c, CleanupNil: c == nil})\n\t}\n}\n')
     extra2 = {'err2': {'err2.go': depsrc('err2', 1) + '\ntype TB struct{ ID int }\n\nfunc NewB(a T1) (TB, error) {\n\tid, err := vrt.Call(0, true, a.ID)\n\tif err != nil {\n\t\treturn TB{}, err\n\t}\n\treturn TB{ID: id}, nil\n}\n'}}
     specs.append(RawSpec(files, 'providers called directly from a package named err2 (first imported by this injector, referenced twice), package-level err and cleanup', family='frontend', extra_pkgs=extra2, compile_props=['C01', 'C14'], naming='adversarial'))
+    # --- blank imports of the injector file must be carried over; the wire package dot-imported
+    files = {
+        'providers.go': ('package {PKG}\n\nimport (\n\t"example.com/corpus/vrt"\n\t"example.com/corpus/{PKG}/reg"\n)\n\ntype A struct{ ID int }\ntype I interface{ VID() int }\n\nfunc (a *A) VID() int { return a.ID }\n\n'
+                         'func NewA() *A {\n\tid, _ := vrt.Call(1, false, reg.Count())\n\treturn &A{ID: id}\n}\n\ntype B struct{ ID int }\n\nfunc NewB(i I) B {\n\tid, _ := vrt.Call(0, false, i.VID())\n\treturn B{ID: id}\n}\n'),
+        'wire.go': ('//go:build wireinject\n// +build wireinject\n\npackage {PKG}\n\nimport (\n\t. "github.com/google/wire"\n\n\t_ "example.com/corpus/{PKG}/side1"\n\t_ "example.com/corpus/{PKG}/side2"\n)\n\n'
+                    'var Set = NewSet(NewA, Bind(new(I), new(*A)))\n\nfunc Inject() B {\n\tpanic(Build(Set, NewB))\n}\n'),
+        'zz_driver.go': ('//go:build !wireinject\n// +build !wireinject\n\npackage {PKG}\n\nimport (\n\t"example.com/corpus/vrt"\n\t"example.com/corpus/{PKG}/reg"\n)\n\nfunc VDrive() {\n'
+                         '\tvrt.A("C01,C15", reg.Count() == 2, "blank imports of the injector file are carried over to the generated file (their side effects happen)")\n'
+                         '\tspec := &vrt.Spec{Nodes: []vrt.Node{{Name: "NewB", Kind: vrt.KFunc, Params: []vrt.Ref{{Node: 1}}}, {Name: "NewA", Kind: vrt.KFunc, Params: []vrt.Ref{{Node: -1, Const: 2}}}}, Result: []vrt.Ref{{Node: 0}}, ArgIDs: make([][]int, 2)}\n'
+                         '\tvrt.Reset()\n\tres := Inject()\n\tvrt.Check(spec, vrt.Outcome{Result: []int{res.ID}, CleanupNil: true})\n}\n'),
+    }
+    extra = {'reg': {'reg.go': 'package reg\n\nvar n int\n\nfunc Register() { n++ }\n\nfunc Count() int { return n }\n'},
+             'side1': {'side1.go': 'package side1\n\nimport "example.com/corpus/{PKG}/reg"\n\nfunc init() { reg.Register() }\n'},
+             'side2': {'side2.go': 'package side2\n\nimport "example.com/corpus/{PKG}/reg"\n\nfunc init() { reg.Register() }\n'}}
+    specs.append(RawSpec(files, 'dot-imported wire package (Build, NewSet, Bind) and two blank imports in the injector file', family='frontend', extra_pkgs=extra, compile_props=['C01', 'C15']))
     # --- several provider-set variables declared in one var spec
     files = {
         'providers.go': ('package {PKG}\n\nimport (\n\t"example.com/corpus/vrt"\n\t"github.com/google/wire"\n)\n\ntype A struct{ ID int }\ntype B struct{ ID int }\ntype R struct{ ID int }\n\n'
